@@ -2780,6 +2780,27 @@ def _argext(a, kind):
     return best
 
 
+def gradient(f, *varargs, axis=None, edge_order=1):
+    """1-d np.gradient with unit spacing: central differences inside, one-sided at the ends"""
+    if varargs or edge_order != 1:
+        raise Unsupported("np.gradient with spacing arguments / edge_order=2")
+    f = f if isinstance(f, ndarray) else asarray(f)
+    d = f._data_arr() if f._is_masked else f
+    if d.a.ndim != 1:
+        raise Unsupported("np.gradient n-d")
+    n = d.a.shape[0]
+    if n < 2:
+        raise ValueError("Shape of array too small to calculate a numerical gradient, at least (edge_order + 1) elements are required.")
+    xs = [as_sfloat_strict(v) for v in d.a]
+    out = _obj((n,))
+    out[0] = xs[1] - xs[0]
+    out[n - 1] = xs[n - 1] - xs[n - 2]
+    for i in range(1, n - 1):
+        out[i] = (xs[i + 1] - xs[i - 1]) / 2
+    r = ndarray(out, "float64")
+    return MaskedArray(r, f._mask_copy()) if f._is_masked else r
+
+
 def repeat(a, repeats, axis=None):
     a = a if isinstance(a, ndarray) else asarray(a)
     return ndarray(_np.repeat(a.a, int(repeats), axis), a._dt)
